@@ -143,6 +143,15 @@ func (fr *Frame) oblG(guard *Term, kind string, pos token.Pos, goal *Term, props
 	if fr.silent {
 		return
 	}
+	// a safety obligation also counts for the properties the function's contract is labelled with:
+	// a property that relies on the function relies on it not panicking
+	if len(props) == 1 && props[0] == "C13" && safetyKinds[strings.SplitN(kind, ":", 2)[0]] {
+		for _, p := range fr.ex.frameProps {
+			if p != "C13" && p != "C20" {
+				props = append(props, p)
+			}
+		}
+	}
 	o := &Obl{Fn: funcName(fr.ex.top), Kind: kind, Pos: pos, Guard: guard, Goal: goal, Props: props, Via: fr.chain}
 	if pos.IsValid() {
 		o.Snip = prog.snippet(pos)
